@@ -391,6 +391,8 @@ var corpus = []string{
 	`select ?s, count(distinct ?o) as ?n, sum(?o) as ?t from ?g where {?s ?p ?o} group by ?s;`,
 	`select ?s, ?o from ?g where {?s ?p ?o} order by ?s asc, ?o desc;`,
 	`select ?s from ?g where {?s ?p ?o} order by ?s;`,
+	`select ?s as ?a, ?p as ?b, ?o as ?c from ?g where {?s ?p ?o} order by ?a asc, ?b desc, ?a asc, ?c;`,
+	`select ?s, ?p, ?o from ?g where {?s ?p ?o} order by ?o desc, ?s, ?o desc, ?p, ?s;`,
 	`select ?s, ?o from ?g where {?s ?p ?o} having ?o > "10"^^type:int64;`,
 	`select ?s, ?o from ?g where {?s ?p ?o} having (?o > "10"^^type:int64) and not (?s = ?o);`,
 	`select ?s, ?t from ?g where {?s ?p ?o at ?t} having ?t < 2014-03-10T00:00:00-08:00;`,
@@ -766,7 +768,7 @@ func main() {
 	validateRecogniser(r)
 	r.Assume("oracle = verif/recog: CFG membership by exhaustive derivation over the exported grammar table (must-reject side) and the same with greedy optionals (must-accept side); statements derivable only by skipping an optional part whose first token is next are latitude (counted, either verdict allowed)")
 	r.Assume("token sequences reach the parser as text: one canonical lexeme per kind (PREDICATE_BOUND after BETWEEN uses the two-timestamp form), re-lexed by the real lexer to confirm; sequences that text cannot produce this way are counted and skipped")
-	r.Assume("the Statement is compared through a canonical dump of its exported accessors; blank-node labels are taken from the text, so dumps are deterministic; corpus statements avoid repeated ORDER BY keys (their order is a C14 matter)")
+	r.Assume("the Statement is compared through a canonical dump of its exported accessors; blank-node labels are taken from the text, so dumps are deterministic; two corpus statements repeat ORDER BY keys: the extracted key list must be the same on every parse")
 	r.Assume("the recogniser is validated at start against the accept/reject tables extracted from bql/grammar/grammar_test.go; disagreement is a machinery error")
 
 	fresh := map[string]obs{}
@@ -788,8 +790,15 @@ func main() {
 			common.Machinery("corpus statement not accepted by a fresh SemanticBQL parser (the plain parser accepts it): %q: %s", b, o.V)
 		}
 		usable = append(usable, b)
-		if o2 := observe(newSemantic(), b); o2.Dump != o.Dump {
-			common.Machinery("dump of %q is not deterministic across fresh parsers:\n%s", b, diffLines(o.Dump, o2.Dump))
+		// the meaning is determined by the text alone: several fresh parsers must extract the same statement
+		// (eight parses: whatever an implementation leaves to map iteration order shows with probability > 0.99)
+		same := true
+		for k := 0; k < 8 && same; k++ {
+			if o2 := observe(newSemantic(), b); o2.Dump != o.Dump {
+				same = false
+				r.Fail(common.Failure{Check: "history", Class: "fresh-parsers-only", Shape: "fresh-parsers-extract-different-meanings", Case: histCase{History: []string{}, Then: b},
+					Detail: fmt.Sprintf("the statement %q parsed by two fresh SemanticBQL parsers yields different statements:\n%s", b, diffLines(o.Dump, o2.Dump))})
+			}
 		}
 		fresh[b] = o
 	}
